@@ -53,7 +53,7 @@ def load_data(tr_samples_path, tr_psi_path=None, tr_bases_path=None, bases_path=
         data.append(np.loadtxt(tr_bases_path, dtype=str, ndmin=2))
 
     if bases_path is not None:
-        data.append(np.loadtxt(bases_path, dtype=str, ndmin=1))
+        data.append(np.loadtxt(bases_path, dtype=str, ndmin=2))
     return data
 
 
@@ -109,7 +109,7 @@ def load_data_DM(
         data.append(np.loadtxt(tr_bases_path, dtype=str, ndmin=2))
 
     if bases_path is not None:
-        data.append(np.loadtxt(bases_path, dtype=str, ndmin=1))
+        data.append(np.loadtxt(bases_path, dtype=str, ndmin=2))
 
     return data
 
